@@ -175,6 +175,19 @@ namespace options
         }
 
     private:
+        // Everything following the "--" separator is a positional, whatever it looks like.
+        // The parser stores such tokens verbatim, without the option syntax check.
+        struct verbatim_t
+        {
+        };
+
+        user_input(const std::string& arg, verbatim_t) : arg_(arg), name_(arg)
+        {
+        }
+
+        friend class parser;
+
+    private:
         std::string arg_;
         std::string name_;
         lang::optional<std::string> value_;
